@@ -24,12 +24,21 @@ pub fn numbers(thorough: bool) -> Vec<(Value, String)> {
         (json!(1e-20), "1e-20".into()),
         (json!(2e-20), "2e-20".into()),
         (json!(-0.0), "-0.0".into()),
+        // neighbouring doubles around an integer, and integers next to a float of the same magnitude: equality is
+        // exact, never "close enough"
+        (json!(1.0000000000000002), "1.0000000000000002".into()),
+        (json!(0.9999999999999999), "0.9999999999999999".into()),
+        (json!(4503599627370497i64), "4503599627370497".into()),
+        (json!(4503599627370496.0), "4503599627370496.0".into()),
     ];
     if thorough {
         v.extend([
             (json!(0.0), "0.0".into()),
             (json!(-1.5), "-1.5".into()),
-            (json!(1.0000000000000002), "1.0000000000000002".into()),
+            (json!(1.9999999999999998), "1.9999999999999998".into()),
+            (json!(4503599627370495.5), "4503599627370495.5".into()),
+            (json!(-4503599627370497i64), "-4503599627370497".into()),
+            (json!(-4503599627370496.0), "-4503599627370496.0".into()),
             (json!(9007199254740990i64), "9007199254740990".into()),
             (json!(-9007199254740991i64), "-9007199254740991".into()),
             (json!(1e300), "1e300".into()),
